@@ -83,7 +83,7 @@ BOUNDARIES = [
     "store:fill-view-first-row", "store:fill-view-last-row", "store:view-of-view", "store:clone-of-view",
     "store:fill-after-same-object-cat", "store:whole-slice-is-same-object", "store:cat-reads-written-view",
     # numeric representation (magnitudes around 2**24, 2**31, 2**53, 2**62; every way to pass a fill value)
-    "numeric:big-int-fill-forms", "numeric:big-float-fill-forms", "numeric:big-cat-clone-dense", "numeric:mixed-dtype-cat",
+    "forms:call-forms", "numeric:width32-extremes", "numeric:big-int-fill-forms", "numeric:big-float-fill-forms", "numeric:big-cat-clone-dense", "numeric:mixed-dtype-cat",
     # error paths of the constructors and of the dispatch
     "errpath:from-nontensor", "errpath:from-ndim2", "errpath:from-tuple", "errpath:from-1d-column", "errpath:mixed-class",
 ]
@@ -657,19 +657,22 @@ def decorate(rng, case):
     ctx = {"kind": kind, "dtype": case["dtype"]}
     bases = case["bases"]
     if kind in ("mnt", "met", "dense"):
-        case["width"] = rng.pick([64, 64, 32])
+        w = rng.pick([64, 64, 32])
+        case.setdefault("width", w)
     if "prog" in case:
-        if case.get("width") == 32 and _has_big(case):
+        if case.get("width") == 32 and _needs64(case):
             case["width"] = 64
         return case
     if kind == "mnt":
-        case["base_seq"] = rng.pick(["list", "list", "tuple"])
+        sq = rng.pick(["list", "list", "tuple"])
+        case.setdefault("base_seq", sq)
 
     def deco(node):
         t = node["t"]
         node = dict(node)
         if t == "base" and kind == "mnt":
-            node["seq"] = rng.pick(["list", "list", "tuple"])
+            sq = rng.pick(["list", "list", "tuple"])
+            node.setdefault("seq", sq)
         elif t == "sel":
             node["s"] = deco(node["s"])
             ix = node["idx"]
@@ -681,6 +684,7 @@ def decorate(rng, case):
             if kind == "dense":
                 opts = ["getitem"]
             via = rng.pick(opts)
+            via = node.get("via", via)
             if via == "narrow":
                 st = _shape(node["s"], bases, ctx)
                 if st is None:
@@ -693,35 +697,41 @@ def decorate(rng, case):
         elif t in ("fill", "clone", "ident"):
             node["s"] = deco(node["s"])
             if t == "fill":
-                node["form"] = rng.pick(["pos", "pos", "kw"])
-                if "vform" not in node:
-                    node["vform"] = rng.pick(["scalar"] + fill_forms(case["dtype"], node["value"]))
+                fm = rng.pick(["pos", "pos", "kw"])
+                node.setdefault("form", fm)
+                vf = rng.pick(["scalar"] + fill_forms(case["dtype"], node["value"]))
+                node.setdefault("vform", vf)
         elif t == "cat":
             node["xs"] = [deco(x) for x in node["xs"]]
-            node["seq"] = rng.pick(["list", "list", "tuple"])
+            sq = rng.pick(["list", "list", "tuple"])
+            node.setdefault("seq", sq)
             forms = ["kw", "kw", "pos"]
             if node["dim"] == 0 and node["via"] == "static":
                 forms += ["default", "default"]
-            node["form"] = rng.pick(forms)
+            fm = rng.pick(forms)
+            node.setdefault("form", fm)
         elif t == "dictcat":
             node["parts"] = [{k: deco(v) for k, v in dct.items()} for dct in node["parts"]]
-            node["form"] = rng.pick(["kw", "pos"])
-            node["seq"] = rng.pick(["list", "tuple"])
+            fm, sq = rng.pick(["kw", "pos"]), rng.pick(["list", "tuple"])
+            node.setdefault("form", fm)
+            node.setdefault("seq", sq)
         if kind in ("mnt", "met") and t in ("base", "ref", "sel", "cat", "clone") and rng.chance(0.05):
             node = {"t": "ident", "s": node, "how": rng.pick(["cpu", "to", "todict"])}
         return node
 
     case["expr"] = deco(case["expr"])
     if case["final"]["op"] == "dense":
-        case["final"] = dict(case["final"], form=rng.pick(["kw", "pos"]),
-                             vform=rng.pick(fill_forms(case["dtype"], case["final"]["fill"], dense=True)))
-    if case.get("width") == 32 and _has_big(case):
+        fm = rng.pick(["kw", "pos"])
+        vf = rng.pick(fill_forms(case["dtype"], case["final"]["fill"], dense=True))
+        case["final"] = dict({"form": fm, "vform": vf}, **case["final"])
+    if case.get("width") == 32 and _needs64(case):
         case["width"] = 64
     return case
 
 
 def _scalars(case):
     for cells in list(case["bases"]) + [n["cells"] for n in _walk(case["expr"]) if n["t"] in ("base", "rawfrom")] + \
+            [n["cols"] for n in _walk(case["expr"]) if n["t"] == "basecols"] + \
             [st_["cells"] for st_ in case.get("prog", []) if st_["op"] == "base"]:
         for row in cells:
             for c in row:
@@ -734,6 +744,24 @@ def _scalars(case):
             yield st_["value"]
     if case["final"]["op"] == "dense":
         yield case["final"]["fill"]
+
+
+def _fits32(x, dtype):
+    """x is exactly representable in the 32-bit payload type"""
+    if x is None:
+        return True
+    if dtype == "int":
+        return -2 ** 31 <= x < 2 ** 31
+    import struct
+    try:
+        return struct.unpack("f", struct.pack("f", x))[0] == x
+    except OverflowError:
+        return False
+
+
+def _needs64(case):
+    """some payload / fill / pad value of the case would be changed by the HARNESS when stored in 32 bits"""
+    return any(not _fits32(x, case["dtype"]) for x in _scalars(case))
 
 
 def _has_big(case):
@@ -764,16 +792,18 @@ def boundary_cases(rng):
     """the dedicated boundary stream: one or more cases per entry of BOUNDARIES, in every run"""
     out = []
 
-    def add(tag, kind, dtype, expr, bases=(), final=None, whole=None, prog=None, scenario="boundary"):
+    def add(tag, kind, dtype, expr, bases=(), final=None, whole=None, prog=None, scenario="boundary", extra=None):
         c = {"kind": kind, "dtype": dtype, "bases": list(bases), "scenario": scenario, "boundary": tag,
              "final": final or {"op": "cells"}, "expr": expr if prog is None else {"t": "prog"}}
+        c.update(extra or {})
         if whole is not None:
             c["whole"] = whole
         if prog is not None:
             c["prog"] = prog
         if prog is not None:
-            c["width"] = rng.pick([64, 32])
-            if _has_big(c):
+            w = rng.pick([64, 32])
+            c.setdefault("width", w)
+            if c["width"] == 32 and _needs64(c):
                 c["width"] = 64
         out.append(decorate(rng, c) if prog is None else c)
 
@@ -928,6 +958,49 @@ def boundary_cases(rng):
                     prog=[B, S(0, 0, sl(1, 3)), S(1, 1, {"t": "int", "i": 0}), F(2, 0, fills[1]),
                           {"op": "cat", "vs": [1, 1], "dim": d, "via": via}, F(4, 1, fills[3]), S(0, 1, sl(0, 2))])
             add("store:whole-slice-is-same-object", kind, dtype, None, prog=[B, S(0, 0, sl(0, 3)), S(0, 1, sl(None, None)), F(1, 0, fills[1]), F(2, 2, fills[3])])
+            # ---- every call form of the public signatures, deterministically (sanity() requires them)
+            two = [sel(ref0, 0, sl(0, 1)), sel(ref0, 0, sl(1, 3))]
+            for form in ("kw", "pos", "default"):
+                for seq in ("list", "tuple"):
+                    add("forms:call-forms", kind, dtype, dict(cat(two, 0, "static"), form=form, seq=seq), [std], whole=ref0,
+                        extra={"width": 64 if form == "kw" else 32, "base_seq": seq})
+            for d in (-3, -2):
+                n5 = [sel(ref0, d + 3, sl(i, i + 1)) for i in range(3)] + [sel(ref0, d + 3, sl(3, 3)), sel(ref0, d + 3, sl(3, None))]
+                add("forms:call-forms", kind, dtype, cat(n5, d, "tf"), [std], whole=ref0)
+            for via_, ix in (("getitem", sl(0, 2)), ("select", sl(0, 2)), ("select_neg", {"t": "list", "l": [2, 0]}),
+                             ("narrow", sl(1, 3)), ("index_select", {"t": "tensor", "l": [1, -1]})):
+                for d in (0, 1):
+                    add("forms:call-forms", kind, dtype, cat([dict(sel(ref0, d, ix), via=via_), ref0], d, "static"), [std])
+            for fm in ("pos", "kw"):
+                add("forms:call-forms", kind, dtype, dict(fill({"t": "base", "cells": std, "seq": "tuple" if fm == "kw" else "list"},
+                                                               1, fills[1]), form=fm, vform="scalar"))
+            for how in ("cpu", "to", "todict"):
+                add("forms:call-forms", kind, dtype, cat([{"t": "ident", "how": how, "s": ref0}, ref0], 0, "tf"), [std])
+            if kind == "mnt":
+                for fm, vf in (("kw", "scalar"), ("pos", "pyfloat" if dtype == "int" else "pyint")):
+                    add("forms:call-forms", kind, dtype, {"t": "base", "cells": std},
+                        final={"op": "dense", "fill": 7 if dtype == "int" else 7.0, "form": fm, "vform": vf})
+            else:
+                add("forms:call-forms", kind, dtype, {"t": "basecols", "cols": [[row[j] for row in std] for j in range(3)]})
+                add("forms:call-forms", kind, dtype, {"t": "basecols", "cols": [[row[0] for row in std], [row[1] for row in std][:2]]})
+            # plain tensors and dicts through torch_frame.cat
+            dn = _lens_cells("dense", dtype, [[1, 1], [1, 1]])
+            for d in (0, 1):
+                add("forms:call-forms", "dense", dtype, cat([{"t": "base", "cells": dn}, sel({"t": "base", "cells": dn}, d, sl(0, 1))], d, "tf"))
+                if kind == "mnt":
+                    pa = {"a": {"t": "base", "cells": std}, "b": sel({"t": "base", "cells": std}, 1 - d, sl(0, 2))}
+                    add("forms:call-forms", kind, dtype, {"t": "dictcat", "keys": ["a", "b"], "parts": [pa, dict(reversed(list(pa.items())))], "dim": d})
+            # ---- the extremes of the 32-bit payload types, stored in 32 bits
+            if dtype == "int":
+                ext = [[[2 ** 31 - 1, -1], [-(2 ** 31)]], [[-(2 ** 31) + 1], [2 ** 31 - 2, -1]]]
+                ext = ext if kind == "mnt" else [[[2 ** 31 - 1, -1], [-(2 ** 31)]], [[-(2 ** 31) + 1, -1], [2 ** 31 - 2]]]
+            else:
+                ext = [[[16777216.0, None], [-16777215.0]], [[8388607.5], [-8388607.5, None]]]
+                ext = ext if kind == "mnt" else [[[16777216.0, None], [-16777215.0]], [[8388607.5, None], [-8388607.5]]]
+            eb = {"t": "base", "cells": ext}
+            for d in (0, 1):
+                add("numeric:width32-extremes", kind, dtype, fill(cat([eb, {"t": "clone", "s": eb}], d, via), 0, fills[1]),
+                    extra={"width": 32}, final={"op": "dense", "fill": fills[0]} if kind == "mnt" else None)
             # ---- numeric representation
             if dtype == "int":
                 bigc = [[[2 ** 24 + 1, -1, -(2 ** 53) - 1], [2 ** 62, -1]],
@@ -982,7 +1055,7 @@ def boundary_cases(rng):
 
 
 def generate(rng, tier):
-    n = 1500 if tier == "quick" else 30000
+    n = 1300 if tier == "quick" else 30000
     cases = boundary_cases(rng) + [decorate(rng, gen_case(rng, tier)) for _ in range(n)]
     if tier == "thorough":
         cases += small_scope(tier)
@@ -1939,10 +2012,9 @@ def sanity(cases, obss):
     n = d["total"]
     if n < 200:
         return probs          # replay / tiny runs
-    for sc in ("roundtrip", "zero-total", "cat", "reject", "reject-widths", "fill", "dense", "clone", "from", "dict",
-               "tensor", "store", "boundary"):
-        if d["scenario"].get(sc, 0) == 0:
-            probs.append(f"scenario {sc} never drawn")
+    # every requirement below is met by the DETERMINISTIC stream boundary_cases() alone (independent of the seed)
+    if d["scenario"].get("boundary", 0) == 0:
+        probs.append("the deterministic boundary stream is missing")
     for kd in ("mnt/int", "mnt/float", "met/int", "met/float", "dense/int", "dense/float"):
         if d["kind"].get(kd, 0) == 0:
             probs.append(f"container kind {kd} never drawn")
@@ -1959,9 +2031,9 @@ def sanity(cases, obss):
         probs.append(f"{d['raised']} of {n} cases end in an exception")
     if d["expected_rejections"] == 0:
         probs.append("no expected rejection drawn")
-    if d["cat_with_empty_part"] < 0.05 * n:
+    if d["cat_with_empty_part"] < 60:
         probs.append("too few cats with an empty part")
-    if d["cat_with_selected_part"] < 0.2 * n:
+    if d["cat_with_selected_part"] < 100:
         probs.append("too few cats whose parts are results of selections")
     if d["fills"] == 0 or d["dense"] == 0 or d["node_ops"].get("clone", 0) == 0:
         probs.append("fillna_col / to_dense / clone never drawn")
